@@ -77,9 +77,12 @@ def implPathMatch (req cpath : Bytes) : Bool :=
   else if cpath.isPrefixOf r then cpath.getLast? = some slash || r[cpath.length]? = some slash
   else false
 
+/-- a cookie value; `none` = the name was sent without "=value" (Python `None`) -/
+abbrev Val := Option Bytes
+
 structure Cookie where
   name : Bytes
-  value : Bytes
+  value : Val
   attrs : List (Bytes × Option Bytes)   -- attribute (key, value) pairs in header order, keys as sent; `none` = no "=value"
   expired : Bool                        -- cookies.is_expired(attrs)
 deriving DecidableEq, Repr
@@ -110,7 +113,7 @@ def ckey (c : Cookie) (host : Bytes) (port : Nat) : JKey :=
     port := port,
     path := match attrGet kPath c.attrs with | some (some p) => p | _ => [slash] }
 
-abbrev Dict := List (Bytes × Bytes)
+abbrev Dict := List (Bytes × Val)
 abbrev Jar := List (JKey × Dict)
 
 def jarLookup (k : JKey) : Jar → Option Dict
@@ -118,7 +121,7 @@ def jarLookup (k : JKey) : Jar → Option Dict
   | (k', d) :: rest => if k' = k then some d else jarLookup k rest
 
 /-- `d[name] = value` on an insertion-ordered dict -/
-def dictSet (name value : Bytes) : Dict → Dict
+def dictSet (name : Bytes) (value : Val) : Dict → Dict
   | [] => [(name, value)]
   | (n, v) :: rest => if n = name then (n, value) :: rest else (n, v) :: dictSet name value rest
 
@@ -148,11 +151,16 @@ def attached (jar : Jar) (flt : Bool) (host : Bytes) (port : Nat) (path : Bytes)
       if implDomainMatch host p.1.domain && decide (port = p.1.port) && implPathMatch path p.1.path then p.2 else [])
   else []
 
-/-- `format_cookie_header` for values without special characters -/
+/-- `format_cookie_header` for values without special characters (`name` alone for a value-less cookie);
+    the full `_format_pairs` with quoting is `cookieHeaderText` in Model/C54_Header.lean -/
+def pairText : Bytes × Val → Bytes
+  | (n, none) => n
+  | (n, some v) => n ++ [0x3d] ++ v
+
 def cookieHeader : Dict → Bytes
   | [] => []
-  | [(n, v)] => n ++ [0x3d] ++ v
-  | (n, v) :: rest => n ++ [0x3d] ++ v ++ [0x3b, 0x20] ++ cookieHeader rest
+  | [p] => pairText p
+  | p :: rest => pairText p ++ [0x3b, 0x20] ++ cookieHeader rest
 
 inductive Event where
   | resp (host : Bytes) (port : Nat) (cookies : List Cookie)
@@ -207,7 +215,7 @@ def isExpired (now : Int) (attrs : List (Bytes × Option Bytes)) (dateTs : Optio
 /-- a Set-Cookie as parsed (name, value, attribute pairs) plus the date-parser's verdict on its Expires value -/
 structure RawCookie where
   name : Bytes
-  value : Bytes
+  value : Val
   attrs : List (Bytes × Option Bytes)
   dateTs : Option Int
 deriving Repr
@@ -229,28 +237,28 @@ def runRaw (jar : Jar) (evs : List RawEvent) : Jar := runJar jar (evs.map RawEve
 
 /-! ### the jar as a function of the history -/
 
-def dictGet (n : Bytes) : Dict → Option Bytes
+def dictGet (n : Bytes) : Dict → Option Val
   | [] => none
   | (n', v) :: rest => if n' = n then some v else dictGet n rest
 
 /-- `self.jar[k][n]` if present -/
-def jarGet (jar : Jar) (k : JKey) (n : Bytes) : Option Bytes :=
+def jarGet (jar : Jar) (k : JKey) (n : Bytes) : Option Val :=
   (jarLookup k jar).bind (dictGet n)
 
 /-- the effect of one Set-Cookie on the slot `(k, n)` -/
-def writeCookie (host : Bytes) (port : Nat) (k : JKey) (n : Bytes) (cur : Option Bytes) (c : Cookie) : Option Bytes :=
+def writeCookie (host : Bytes) (port : Nat) (k : JKey) (n : Bytes) (cur : Option Val) (c : Cookie) : Option Val :=
   if implDomainMatch host (ckey c host port).domain && decide (ckey c host port = k) && decide (c.name = n) then
     (if c.expired then none else some c.value)
   else cur
 
 /-- the last accepted Set-Cookie for `(k, n)` in the history decides: its value, or nothing if it was expired -/
-def lastWriteFrom (cur : Option Bytes) (evs : List Event) (k : JKey) (n : Bytes) : Option Bytes :=
+def lastWriteFrom (cur : Option Val) (evs : List Event) (k : JKey) (n : Bytes) : Option Val :=
   evs.foldl (fun cur ev =>
     match ev with
     | .resp host port cs => cs.foldl (writeCookie host port k n) cur
     | .req _ _ _ _ => cur) cur
 
-def lastWrite (evs : List Event) (k : JKey) (n : Bytes) : Option Bytes := lastWriteFrom none evs k n
+def lastWrite (evs : List Event) (k : JKey) (n : Bytes) : Option Val := lastWriteFrom none evs k n
 
 /-! ### RFC 6265 -/
 
